@@ -85,8 +85,8 @@ def run(ck):
     ck.lean_obligations(generated=["PyFuns", "PyFuns2", "EnumTables", "PyFuns3", "Misc3Tables"])
     drv = ck.driver()
     ck.assume("Python int/bytes/str built-ins behave as documented (int(str, base), to_bytes, slicing)",
-              "negative integers are outside the modelled domain of get_bytes_cnt_of_int/value_to_bytes/reverse_bits "
-              "(the implementation loops forever or formats a sign; callers never pass them)",
+              "negative integers: get_bytes_cnt_of_int/value_to_bytes/load_hex_string refuse them with an SPSDK error (fix 55a6c57; every call on a "
+              "negative value runs under a 50 ms alarm so that a regression to the endless loop is reported, not suffered); reverse_bits formats a sign -> ValueError",
               "non-ASCII strings are sampled by the oracle only (model is ASCII)")
     rng = ck.rng
 
@@ -414,9 +414,9 @@ def run_phase2(ck, drv, corr, misc, sbmisc, values, sw32):
         if r is None:
             continue
         s.note(("gen_bytes_cnt_negative", v))
-        # fuel exhaustion of the translated loop <-> the real call does not return (robustness observation, not a property clause)
+        # a call that does not return is reported as E:other (= what fuel exhaustion of the translated loop would be)
         reqs.append((("gen_bytes_cnt_negative", v), f"gen_bytes_cnt 3000 {v} 1 none", "E:other" if r == ("timeout",) else canon(r)))
-    ck.extra["get_bytes_cnt_of_int_negative"] = "does not terminate (50 ms alarm) - matches the generated model's fuel exhaustion"
+    ck.extra["get_bytes_cnt_of_int_negative"] = "refused with SPSDKValueError (fix 55a6c57); checked under a 50 ms alarm"
     bcd = set(range(-3, 0x1100)) | {0x9999, 0x999A, 0x99A0, 0x9A00, 0xA000, 0x9998, 0x10000, 0x19999, 2 ** 32}
     if ck.quick:
         bcd |= {rng.randrange(0x1100, 0xA010) for _ in range(3000)}
@@ -657,33 +657,7 @@ def run_phase2(ck, drv, corr, misc, sbmisc, values, sw32):
 
 # ====================================================================================================== phase 3
 BCD_GRAMMAR = re.compile(r"[0-9]{1,4}\.[0-9]{1,4}\.[0-9]{1,4}\Z")          # documented: #.#.#, # = 1-4 decimal digits
-BCD_LENIENT = re.compile(r"[ \t\n\r\x0b\x0c]*[+-]?(0[xX]_?)?[0-9a-fA-F](_?[0-9a-fA-F])*[ \t\n\r\x0b\x0c]*\Z")
-F_BCD = "C20-bcd-num-from-str-unvalidated"
 F_SIZE = "C20-size-fmt-last-unit"
-F_NEG = "C20-negative-int-hangs"
-
-
-def _bcd_expect(text):
-    """From the input alone: ('grammar', (a,b,c)) | ('lenient', (a,b,c)) | ('reject',) | ('reject-valueerror',)."""
-    if BCD_GRAMMAR.match(text):
-        return ("grammar", tuple(int(p, 16) for p in text.split(".")))
-    parts = text.split(".")
-    if len(parts) != 3:
-        return ("reject",)
-    vals = []
-    for p_ in parts:
-        if len(p_) > 4:
-            return ("reject",)
-        if not BCD_LENIENT.match(p_):
-            return ("reject-valueerror",)
-        try:
-            v = int(p_, 16)
-        except ValueError:
-            return ("reject-valueerror",)
-        if v < 0 or v > 0x9999 or not f"{v:04X}".isdigit():
-            return ("reject",)
-        vals.append(v)
-    return ("lenient", tuple(vals))
 
 
 def run_phase3(ck, drv, corr, misc, sbmisc):
@@ -764,14 +738,21 @@ def run_phase3(ck, drv, corr, misc, sbmisc):
                         s.expect(r == via, ("value_to_bytes_any", kind, val, a2n, bc), "value_to_bytes(str) is not value_to_bytes(value_to_int(str))", r, via)
                     if r[0] == "ok" and kind != "bytes" and bc:
                         s.expect(len(r[1]) == bc, ("value_to_bytes_any", kind, repr(val), bc), "value_to_bytes ignores byte_cnt", r)
-    # ---- negative integers: must come back (finding: they do not)
-    for v in (-1, -256):
-        r = bounded(misc.get_bytes_cnt_of_int, v)
-        if r is None:
-            break
-        s.note(("bytes_cnt_negative", v), cls="negative")
-        s.expect(r != ("timeout",) and r[0] == "E:spsdk", ("bytes_cnt_negative", v), "get_bytes_cnt_of_int does not refuse a negative value "
-                 "with an SPSDK error (it does not return at all: `value >>= 8` never reaches 0)", r, "E:spsdk", finding=F_NEG if v < 0 else None)
+    # ---- negative integers: refused with an SPSDK error (fix 55a6c57); every call under the alarm - a call that does not return is a failure
+    for v in (-1, -2, -255, -256, -(2 ** 64)):
+        for what, fn, args, line in (("get_bytes_cnt_of_int", misc.get_bytes_cnt_of_int, (v,), None),
+                                     ("value_to_bytes", misc.value_to_bytes, (v,), f"v2b_any int {v} 1 none 0"),
+                                     ("value_to_bytes_bc", misc.value_to_bytes, (v, False, 4), f"v2b_any int {v} 0 4 0"),
+                                     ("load_hex_string", misc.load_hex_string, (v, 4), f"load_hex int {v} 4")):
+            r = bounded(fn, *args)
+            if r is None:
+                break
+            hung = r == ("timeout",) or (r[0] == "E:other" and len(r) > 1 and "_Timeout" in str(r[1]))
+            s.note((what, "negative", v), cls="negative")
+            s.expect(not hung and r[0] == "E:spsdk", (what, "negative", v), f"{what} does not refuse a negative value with an SPSDK error"
+                     + (" (the call did not return within 50 ms: `value >>= 8` never reaches 0)" if hung else ""), "does not return" if hung else r, "E:spsdk")
+            if line:
+                reqs.append(((what, "negative", v), line, "E:other" if hung else canon(r)))
     # ---- extend_block with integer paddings
     for L in (0, 1, 5):
         b = bytes(range(1, L + 1))
@@ -904,37 +885,25 @@ def run_phase3(ck, drv, corr, misc, sbmisc):
     texts = [c + ".0.9" for c in comps] + ["1.2.3", "1.2", "1.2.3.4", "", ".", "..", "...", "0.0.0", "9999.9999.9999", "1.0x2.3", "1.2.+3", "12345.0.0", "a.0.0", "1..2"]
     texts += [f"{rng.randrange(10000)}.{rng.randrange(10000)}.{rng.randrange(1000)}" for _ in range(200)]
     texts.append(sbmisc.BcdVersion3.DEFAULT)
-    accepted_lenient = 0
     for text in texts:
         r = pyres(lambda: sbmisc.BcdVersion3.from_str(text))
         got = (r[1].major, r[1].minor, r[1].service) if r[0] == "ok" else None
-        exp = _bcd_expect(text) if all(ord(c) < 128 for c in text) else None
-        s.note(("from_str", text), nontrivial=r[0] == "ok" or text.count(".") == 2, cls=(exp[0] if exp else "non-ascii") + "/" + r[0])
-        if exp is None:
-            # non-ASCII: documented grammar is ASCII decimal digits -> must not be accepted (int() takes any Unicode digit)
-            s.expect(r[0] != "ok", ("from_str", text), "BcdVersion3.from_str accepts a component that is not 1-4 ASCII decimal digits", got, None, finding=F_BCD)
-            continue
-        reqs.append((("from_str", text), "bcd_from_str " + _hx(text), ("ok:%d.%d.%d" % got) if got else r[0]))
-        if exp[0] == "grammar":
-            ok = got == exp[1] if f"{exp[1][0]:04X}{exp[1][1]:04X}{exp[1][2]:04X}".isdigit() else r[0] == "E:spsdk"
-            s.expect(ok, ("from_str", text), "BcdVersion3.from_str does not parse a version that matches #.#.#", r, exp[1])
+        gram = BCD_GRAMMAR.match(text) is not None                     # the documented grammar, from the text alone (ASCII digits only)
+        s.note(("from_str", text), nontrivial=r[0] == "ok" or text.count(".") == 2, cls=("grammar" if gram else "reject") + "/" + r[0])
+        if all(ord(c) < 128 for c in text):
+            reqs.append((("from_str", text), "bcd_from_str " + _hx(text), ("ok:%d.%d.%d" % got) if got else r[0]))
+        if gram:
+            want = tuple(int(p_, 16) for p_ in text.split("."))
+            s.expect(got == want, ("from_str", text), "BcdVersion3.from_str does not parse a version that matches #.#.#", r, want)
             if got:
                 back = pyres(lambda: sbmisc.BcdVersion3.from_str(str(r[1])))
-                s.expect(str(r[1]) == ".".join(p.lstrip("0") or "0" for p in text.split(".")) and back[0] == "ok" and back[1] == r[1], ("from_str", text),
+                s.expect(str(r[1]) == ".".join(p_.lstrip("0") or "0" for p_ in text.split(".")) and back[0] == "ok" and back[1] == r[1], ("from_str", text),
                          "str(BcdVersion3) does not parse back to the same version", (str(r[1]), back))
                 reqs.append((("bcd_str", got), "bcd_str %d %d %d" % got, "ok:" + _hx(str(r[1]))))
-        elif exp[0] == "lenient":
-            accepted_lenient += r[0] == "ok"
-            # known finding: accepted although not #.#.#; anything but the int(text, 16) reading is a fresh violation
-            s.expect(got == exp[1], ("from_str", text), "BcdVersion3.from_str reads a component differently from its hexadecimal value", r, exp[1])
-            s.expect(r[0] != "ok", ("from_str", text), "BcdVersion3.from_str accepts a component that is not 1-4 decimal digits (sign, 0x prefix, "
-                     "underscore or whitespace pass through int(text, 16))", got, "SPSDKError", finding=F_BCD)
         else:
-            s.expect(r[0] != "ok", ("from_str", text), "BcdVersion3.from_str accepts a malformed version", got)
-            s.expect(r[0] in ("ok", "E:spsdk"), ("from_str", text), "BcdVersion3.from_str rejects a malformed component with ValueError instead of an "
-                     "SPSDK error (the length guard `len(text) < 0` is dead, int() raises)", r[0], "E:spsdk",
-                     finding=F_BCD if exp[0] == "reject-valueerror" else None)
-    ck.extra["bcd_from_str_lenient_accepted"] = accepted_lenient
+            s.expect(r[0] != "ok", ("from_str", text), "BcdVersion3.from_str accepts a text that is not #.#.# with 1-4 decimal digits per component "
+                     "(sign, 0x prefix, underscore, blank, hex letter or non-ASCII digit)", got, "SPSDKError")
+            s.expect(r[0] in ("ok", "E:spsdk"), ("from_str", text), "BcdVersion3.from_str rejects a malformed version with a non-SPSDK error", r[0], "E:spsdk")
     for v in ("1.2.3", sbmisc.BcdVersion3(1, 2, 3)):
         r = pyres(sbmisc.BcdVersion3.to_version, v)
         s.note(("to_version", str(v)))
